@@ -547,20 +547,14 @@ func ruleDepth(c *Ctx) {
 		c.undecided("anchor:execute", token.NoPos, "interp.execute not found")
 		return
 	}
-	// the nested execute whose argument is a Function's Body: find recursive calls whose arg derives from field Body
-	var nested []ssa.Instruction
-	allInstrs(ex, func(in ssa.Instruction) {
-		call, ok := in.(ssa.CallInstruction)
-		if !ok || call.Common().StaticCallee() != ex || len(call.Common().Args) < 2 {
-			return
-		}
-		if f, _ := loadedField(call.Common().Args[1]); f != nil && f.Name() == "Body" {
-			nested = append(nested, in)
-		}
-	})
+	// the nested execute whose argument is a Function's Body: calls of execute, from execute itself or from a helper
+	// of the interpreter, whose code argument derives from field Body
+	nested := nestedFunctionExecutes(c)
+	hosts := c.srcFuncs("interp")
 	c.atLeast("nested execute of a function body", len(nested), 1)
 	for _, in := range nested {
 		blk := in.Block()
+		ex := in.Parent() // the function that makes the call: the guard and the unwinding are looked for there
 		// depth guard: an If comparing callDepth >= const whose true branch returns an error, dominating blk on its false edge
 		guard := false
 		var limit int64 = -1
@@ -646,29 +640,31 @@ func ruleDepth(c *Ctx) {
 	}
 	// each call gets its own array mapping: what is pushed on localArrays is storage allocated for this call
 	// (it stays on the stack of mappings while callees run, so it must not be a re-slice of a buffer they reuse)
-	allInstrs(ex, func(in ssa.Instruction) {
-		name, val := interpFieldStore(in)
-		if name != "localArrays" {
-			return
-		}
-		call, ok := val.(*ssa.Call)
-		if !ok {
-			return
-		}
-		if b, ok := call.Call.Value.(*ssa.Builtin); !ok || b.Name() != "append" || len(call.Call.Args) != 2 {
-			return
-		}
-		// the appended element: stored into the variadic backing array
-		var elem ssa.Value
-		if sl, ok := call.Call.Args[1].(*ssa.Slice); ok {
-			if al, ok := sl.X.(*ssa.Alloc); ok {
-				if refs := al.Referrers(); refs != nil {
-					for _, r := range *refs {
-						if ia, ok := r.(*ssa.IndexAddr); ok {
-							if irefs := ia.Referrers(); irefs != nil {
-								for _, ir := range *irefs {
-									if st, ok := ir.(*ssa.Store); ok && st.Addr == ssa.Value(ia) {
-										elem = st.Val
+	for _, host := range hosts {
+		allInstrs(host, func(in ssa.Instruction) {
+			name, val := interpFieldStore(in)
+			if name != "localArrays" {
+				return
+			}
+			call, ok := val.(*ssa.Call)
+			if !ok {
+				return
+			}
+			if b, ok := call.Call.Value.(*ssa.Builtin); !ok || b.Name() != "append" || len(call.Call.Args) != 2 {
+				return
+			}
+			// the appended element: stored into the variadic backing array
+			var elem ssa.Value
+			if sl, ok := call.Call.Args[1].(*ssa.Slice); ok {
+				if al, ok := sl.X.(*ssa.Alloc); ok {
+					if refs := al.Referrers(); refs != nil {
+						for _, r := range *refs {
+							if ia, ok := r.(*ssa.IndexAddr); ok {
+								if irefs := ia.Referrers(); irefs != nil {
+									for _, ir := range *irefs {
+										if st, ok := ir.(*ssa.Store); ok && st.Addr == ssa.Value(ia) {
+											elem = st.Val
+										}
 									}
 								}
 							}
@@ -676,69 +672,69 @@ func ruleDepth(c *Ctx) {
 					}
 				}
 			}
-		}
-		if elem == nil {
-			c.undecided("frame-fresh", in.Pos(), "the value pushed on localArrays could not be identified")
-			return
-		}
-		// trace to its bases
-		var bases []string
-		seen := map[ssa.Value]bool{}
-		var walk func(v ssa.Value)
-		walk = func(v ssa.Value) {
-			if seen[v] {
+			if elem == nil {
+				c.undecided("frame-fresh", in.Pos(), "the value pushed on localArrays could not be identified")
 				return
 			}
-			seen[v] = true
-			switch x := v.(type) {
-			case *ssa.Phi:
-				for _, e := range x.Edges {
-					walk(e)
-				}
-			case *ssa.Call:
-				if b, ok := x.Call.Value.(*ssa.Builtin); ok && b.Name() == "append" {
-					walk(x.Call.Args[0])
+			// trace to its bases
+			var bases []string
+			seen := map[ssa.Value]bool{}
+			var walk func(v ssa.Value)
+			walk = func(v ssa.Value) {
+				if seen[v] {
 					return
 				}
-				bases = append(bases, "result of "+x.Call.Value.Name())
-			case *ssa.Const:
-				bases = append(bases, "nil")
-			case *ssa.MakeSlice:
-				bases = append(bases, "make")
-			case *ssa.Slice:
-				if n := interpFieldLoad(x.X); n != "" {
-					bases = append(bases, "re-slice of p."+n)
-					return
+				seen[v] = true
+				switch x := v.(type) {
+				case *ssa.Phi:
+					for _, e := range x.Edges {
+						walk(e)
+					}
+				case *ssa.Call:
+					if b, ok := x.Call.Value.(*ssa.Builtin); ok && b.Name() == "append" {
+						walk(x.Call.Args[0])
+						return
+					}
+					bases = append(bases, "result of "+x.Call.Value.Name())
+				case *ssa.Const:
+					bases = append(bases, "nil")
+				case *ssa.MakeSlice:
+					bases = append(bases, "make")
+				case *ssa.Slice:
+					if n := interpFieldLoad(x.X); n != "" {
+						bases = append(bases, "re-slice of p."+n)
+						return
+					}
+					walk(x.X)
+				default:
+					if n := interpFieldLoad(v); n != "" {
+						bases = append(bases, "p."+n)
+						return
+					}
+					bases = append(bases, v.String())
 				}
-				walk(x.X)
-			default:
-				if n := interpFieldLoad(v); n != "" {
-					bases = append(bases, "p."+n)
-					return
+			}
+			walk(elem)
+			okFresh := len(bases) > 0
+			for _, b := range bases {
+				if b != "nil" && b != "make" {
+					okFresh = false
 				}
-				bases = append(bases, v.String())
 			}
-		}
-		walk(elem)
-		okFresh := len(bases) > 0
-		for _, b := range bases {
-			if b != "nil" && b != "make" {
-				okFresh = false
+			c.check(okFresh, "frame-fresh", in.Pos(), "the array mapping pushed for a call starts from nil/make: it is this call's own storage",
+				"the array mapping pushed on localArrays for a call is built on "+strings.Join(bases, ", ")+", not on storage of its own: a nested or recursive call reuses the same backing array and overwrites the caller's mapping, so after the callee returns the caller's array parameters name the callee's arrays")
+			// (the arrays themselves are decided once per run of the rule: localArraysFresh)
+			ranFresh := false
+			for _, o := range c.obs {
+				if strings.HasPrefix(o.Key, "local-array-fresh") || o.Key == "census:stores into the table of live arrays" {
+					ranFresh = true
+				}
 			}
-		}
-		c.check(okFresh, "frame-fresh", in.Pos(), "the array mapping pushed for a call starts from nil/make: it is this call's own storage",
-			"the array mapping pushed on localArrays for a call is built on "+strings.Join(bases, ", ")+", not on storage of its own: a nested or recursive call reuses the same backing array and overwrites the caller's mapping, so after the callee returns the caller's array parameters name the callee's arrays")
-		// (the arrays themselves are decided once per run of the rule: localArraysFresh)
-		ranFresh := false
-		for _, o := range c.obs {
-			if strings.HasPrefix(o.Key, "local-array-fresh") || o.Key == "census:stores into the table of live arrays" {
-				ranFresh = true
+			if !ranFresh {
+				localArraysFresh(c)
 			}
-		}
-		if !ranFresh {
-			localArraysFresh(c)
-		}
-	})
+		})
+	}
 }
 
 // localArraysFresh: every store into the interpreter's table of live arrays is a truncation of the table, or the
@@ -867,4 +863,28 @@ func localArraysFresh(c *Ctx) {
 		})
 	}
 	c.atLeast("stores into the table of live arrays", n, 2)
+}
+
+// nestedFunctionExecutes: the calls of interp.execute, from execute itself or from a helper of the interpreter, whose
+// code argument is the Body of a compiled Function - where a user-defined function's body is run.
+func nestedFunctionExecutes(c *Ctx) []ssa.Instruction {
+	ex := c.ssaFunc("interp", "interp.execute")
+	if ex == nil {
+		return nil
+	}
+	var nested []ssa.Instruction
+	for _, host := range c.srcFuncs("interp") {
+		allInstrs(host, func(in ssa.Instruction) {
+			call, ok := in.(ssa.CallInstruction)
+			if !ok || call.Common().StaticCallee() != ex || len(call.Common().Args) < 2 {
+				return
+			}
+			if f, base := loadedField(call.Common().Args[1]); f != nil && f.Name() == "Body" && base != nil {
+				if nm := named(deref(base.Type())); nm != nil && nm.Obj().Name() == "Function" {
+					nested = append(nested, in)
+				}
+			}
+		})
+	}
+	return nested
 }
